@@ -31,7 +31,7 @@ AliasBlocks ==
 Names(ab) == {ab[i].name: i \in 1..Len(ab)}
 ModLists(ab) ==
   \* (the blocks with three aliases are there for the combination counting: two modifier lists are enough for them, also at Size 2 for the 2-2-2 block)
-  IF "@r" \in Names(ab) /\ (Size < 2 \/ \E i \in 1..Len(ab): ab[i].from = <<"RIGHTCTRL">>) THEN {<<A("@r"), A("@s"), A("@y")>>, <<A("@y"), K("LEFTCTRL"), A("@r")>>} ELSE
+  IF "@r" \in Names(ab) /\ (Size < 2 \/ \E i \in 1..Len(ab): ab[i].from = <<"RIGHTCTRL">>) THEN {<<A("@r"), A("@s"), A("@y")>>, <<A("@y"), K("LEFTCTRL"), A("@r")>>, <<K("LEFTCTRL"), A("@r"), A("@y")>>} ELSE
   {<<K("LEFTCTRL")>>}
   \cup (IF Size >= 2 THEN {<<>>, <<K("RIGHTSHIFT")>>, <<K("LEFTCTRL"), K("LEFTALT"), K("RIGHTSHIFT")>>} ELSE {})
   \cup (IF "@s" \in Names(ab) THEN {<<A("@s")>>, <<K("LEFTCTRL"), A("@s")>>} ELSE {})
